@@ -132,7 +132,9 @@ def numeric(b, ws, dirs=None):
         return seeded_value(ws, b.outputs())
     try:
         if b.linear:
-            return 0.5 * (phi(1.0) - phi(-1.0)), 0.0
+            # exact difference of an affine function; its only error is the rounding of the two function values
+            fp, fm = phi(1.0), phi(-1.0)
+            return 0.5 * (fp - fm), 4 * np.finfo(float).eps * (abs(fp) + abs(fm))
         return richardson(phi, b.h)
     finally:
         b.set_inputs(0.0)
